@@ -23,6 +23,8 @@ type c21Mut struct {
 	Pos  int    `json:"pos"`
 	Len  int    `json:"len"`
 	Size int    `json:"size"`
+	// Group: all snapshot paths that share the tampered file's inode (hard links), the file itself included
+	Group []string `json:"group"`
 }
 
 type c21Rec struct {
@@ -43,6 +45,8 @@ type c21File struct {
 	letters []string
 	bytes   []byte
 	bounds  []int // blob boundaries (offsets)
+	group   []string // snapshot paths sharing the inode (nil: not hard-linked inside the snapshot)
+	extLink bool     // after the restore one more hard link to the file is created outside the target
 }
 
 // c21World is one restored copy of a snapshot with its restorer.
@@ -88,6 +92,61 @@ func c21Snapshot(t *testing.T, r *vrRepo, layouts [][]string) (*data.Snapshot, [
 	return r.snapshot(t, r.saveTreeRaw(t, top)), files
 }
 
+// c21SnapshotLinks: hard-link groups (2 and 3 links, single- and multi-blob, links in different directories), a file
+// whose second link is not part of the snapshot, a file that gets an extra link outside after the restore, and a
+// plain control file.
+func c21SnapshotLinks(t *testing.T, r *vrRepo) (*data.Snapshot, []c21File) {
+	mt := time.Date(2021, 5, 6, 7, 8, 9, 0, time.UTC)
+	type spec struct {
+		paths   []string
+		letters []string
+		links   uint64
+		ext     bool
+	}
+	specs := []spec{
+		{[]string{"h2a", "d/h2b"}, []string{"A"}, 2, false},
+		{[]string{"h3a", "d/h3b", "h3c"}, []string{"A", "B", "A"}, 3, false},
+		{[]string{"d/hz1", "d/hz2"}, []string{"z", "A", "P"}, 2, false},
+		{[]string{"hq1", "hq2"}, []string{"q"}, 2, false},
+		{[]string{"half"}, []string{"A", "B"}, 2, false}, // the other link was not part of the backup
+		{[]string{"ext1"}, []string{"B", "A"}, 1, true},  // hard-linked again after the restore
+		{[]string{"d/ext2"}, []string{"S"}, 1, true},
+		{[]string{"plain"}, []string{"A", "B"}, 1, false},
+	}
+	var files []c21File
+	var top, sub []*data.Node
+	for gi, sp := range specs {
+		ids, S := r.content(sp.letters)
+		for _, p := range sp.paths {
+			n := &data.Node{Name: filepath.Base(p), Type: data.NodeTypeFile, Mode: 0o644, ModTime: mt, AccessTime: mt, ChangeTime: mt,
+				Content: ids, Size: uint64(len(S)), Inode: uint64(900 + gi), Links: sp.links}
+			if sp.links > 1 {
+				n.DeviceID = 7
+			}
+			f := c21File{name: p, letters: sp.letters, bytes: S, extLink: sp.ext}
+			off := 0
+			for _, x := range sp.letters {
+				off += len(r.blobs[x])
+				f.bounds = append(f.bounds, off)
+			}
+			if len(sp.paths) > 1 {
+				f.group = sp.paths
+			}
+			if strings.HasPrefix(p, "d/") {
+				sub = append(sub, n)
+			} else {
+				top = append(top, n)
+			}
+			files = append(files, f)
+		}
+	}
+	sort.Slice(sub, func(i, j int) bool { return sub[i].Name < sub[j].Name })
+	subID := r.saveTreeRaw(t, sub)
+	top = append(top, &data.Node{Name: "d", Type: data.NodeTypeDir, Mode: os.ModeDir | 0o755, ModTime: mt, AccessTime: mt, ChangeTime: mt, Subtree: &subID})
+	sort.Slice(top, func(i, j int) bool { return top[i].Name < top[j].Name })
+	return r.snapshot(t, r.saveTreeRaw(t, top)), files
+}
+
 func c21NewWorld(t *testing.T, r *vrRepo, set, mode string, sn *data.Snapshot, files []c21File, dir string) *c21World {
 	w := &c21World{set: set, mode: mode, target: dir, files: files, byName: map[string]*c21File{}}
 	for i := range files {
@@ -99,6 +158,13 @@ func c21NewWorld(t *testing.T, r *vrRepo, set, mode string, sn *data.Snapshot, f
 		t.Fatalf("harness: restore failed: %v", err)
 	}
 	w.count = n
+	for _, f := range files {
+		if f.extLink {
+			// one more link to the restored file outside of the restore target
+			vrMust(os.MkdirAll(dir+"-outside", 0o755))
+			vrMust(os.Link(filepath.Join(dir, f.name), filepath.Join(dir+"-outside", filepath.Base(f.name)+".link")))
+		}
+	}
 	return w
 }
 
@@ -159,11 +225,18 @@ func (w *c21World) run(muts []c21Mut) c21Rec {
 			continue
 		}
 		seen[m.File] = true
-		b, err := os.ReadFile(filepath.Join(w.target, m.File))
-		if err != nil || !bytes.Equal(b, w.byName[m.File].bytes) {
-			rec.DiffersActual = append(rec.DiffersActual, m.File)
+		for _, g := range m.Group {
+			if g != m.File && seen[g] {
+				continue
+			}
+			seen[g] = true
+			b, err := os.ReadFile(filepath.Join(w.target, g))
+			if err != nil || !bytes.Equal(b, w.byName[g].bytes) {
+				rec.DiffersActual = append(rec.DiffersActual, g)
+			}
 		}
 	}
+	sort.Strings(rec.DiffersActual)
 	// (a) collecting run
 	var mu sync.Mutex
 	rep := map[string]bool{}
@@ -220,7 +293,15 @@ func TestVerif_C21(t *testing.T) {
 	modes := []string{"always", "if-changed", "if-newer", "never"}
 	var tasks []task
 	nadd := 0
+	groupsOf := map[string]map[string][]string{}
 	add := func(set string, m ...c21Mut) {
+		for i := range m {
+			if g := groupsOf[set][m[i].File]; g != nil {
+				m[i].Group = g
+			} else {
+				m[i].Group = []string{m[i].File}
+			}
+		}
 		// verification must not depend on the --overwrite mode of the restore: modes rotate over the
 		// tasks; content-only changes (mtime-sensitive) additionally always run under if-changed
 		mode := modes[(nadd+int(kit.Seed()))%len(modes)]
@@ -295,14 +376,16 @@ func TestVerif_C21(t *testing.T) {
 			for _, e := range []struct{ l, data int }{{1, 0}, {1, 1}, {4096, 0}, {4096, 1}} {
 				add(set, c21Mut{File: f.name, Kind: "extend", Len: e.l, Pos: e.data, Size: n})
 			}
-			add(set, c21Mut{File: f.name, Kind: "remove", Size: n})
+			if f.group == nil && !f.extLink { // removing one of several links is a different question (the others stay intact)
+				add(set, c21Mut{File: f.name, Kind: "remove", Size: n})
+			}
 			add(set, c21Mut{File: f.name, Kind: "touch", Size: n})
 			add(set, c21Mut{File: f.name, Kind: "rewrite", Size: n})
 		}
 		// pairs: two files tampered at once, one of them possibly only touched
 		for i := 0; i < kit.Pick(40, 300); i++ {
 			a, b := files[rng.Intn(len(files))], files[rng.Intn(len(files))]
-			if a.name == b.name || len(a.bytes) == 0 || len(b.bytes) == 0 {
+			if a.name == b.name || len(a.bytes) == 0 || len(b.bytes) == 0 || (a.group != nil && b.group != nil && a.group[0] == b.group[0]) {
 				continue
 			}
 			m1 := c21Mut{File: a.name, Kind: "flip", Pos: rng.Intn(len(a.bytes)), Size: len(a.bytes)}
@@ -322,8 +405,18 @@ func TestVerif_C21(t *testing.T) {
 	}
 	snSmall, fSmall := c21Snapshot(t, r, small)
 	snBig, fBig := c21Snapshot(t, r, big)
+	snLinks, fLinks := c21SnapshotLinks(t, r)
+	for set, fl := range map[string][]c21File{"small": fSmall, "big": fBig, "links": fLinks} {
+		groupsOf[set] = map[string][]string{}
+		for _, f := range fl {
+			if f.group != nil {
+				groupsOf[set][f.name] = f.group
+			}
+		}
+	}
 	gen("small", fSmall, true)
 	gen("big", fBig, false)
+	gen("links", fLinks, false)
 
 	root := t.TempDir()
 	const workers = 6
@@ -334,6 +427,7 @@ func TestVerif_C21(t *testing.T) {
 		worlds := map[string]*c21World{}
 		for _, md := range modes {
 			worlds["small|"+md] = c21NewWorld(t, r, "small", md, snSmall, fSmall, filepath.Join(root, fmt.Sprintf("w%d-small-%s", wi, md)))
+			worlds["links|"+md] = c21NewWorld(t, r, "links", md, snLinks, fLinks, filepath.Join(root, fmt.Sprintf("w%d-links-%s", wi, md)))
 			worlds["big|"+md] = c21NewWorld(t, r, "big", md, snBig, fBig, filepath.Join(root, fmt.Sprintf("w%d-big-%s", wi, md)))
 		}
 		go func() {
